@@ -471,7 +471,26 @@ func (fc *FnCtx) specCall(env *Env, e *Expr) Val {
 				}
 			}
 		}
-	case "implies_all": // unused
+	case "intable":
+		// intable(tableName, structValue): the value is one of the rows of the table
+		if len(e.Args) == 2 && e.Args[0].Kind == "ident" {
+			gi := fc.eng.globals[e.Args[0].Name]
+			v := arg(1)
+			if gi != nil && gi.Kind == "structtable" && v.K == VStruct {
+				st := v.Typ.Underlying().(*types.Struct)
+				n := len(gi.Fields[st.Field(0).Name()])
+				var rows []*Term
+				for r := 0; r < n; r++ {
+					var eqs []*Term
+					for i := 0; i < st.NumFields(); i++ {
+						eqs = append(eqs, mkEq(v.Elems[i].T, gi.Fields[st.Field(i).Name()][r]))
+					}
+					rows = append(rows, mkAnd(eqs...))
+				}
+				fc.usedGlobals[gi.Name] = true
+				return boolVal(mkOr(rows...))
+			}
+		}
 	}
 	panic(unsupported("unknown spec function " + e.Name + "/" + fmt.Sprint(len(e.Args))))
 }
@@ -522,6 +541,14 @@ func (fc *FnCtx) valUnchanged(env *Env, cur, old Val, what string) *Term {
 // ---------- hints: instances of library lemmas ----------
 
 func (fc *FnCtx) applyHint(s *State, env *Env, h *Hint, where string) {
+	defer func() {
+		if r := recover(); r != nil {
+			if u, ok := r.(unsupported); ok && strings.HasPrefix(string(u), "unknown identifier") {
+				return // the hint mentions a local that does not exist on this path: skip it (hints are optional)
+			}
+			panic(r)
+		}
+	}()
 	e := h.E
 	// `cond ==> lemma(args)` guards the instance
 	var guard *Term
